@@ -26,6 +26,9 @@ Protocol (one case = one schema + one Chaperone):
   map <fn>                               FoldedProtein.map on the last plain report -> valid structId err echo attempts called
   heal <max_retries> <decay> <hex,hex,…> ChaperoneLoop.heal with a scripted generator -> outcome final tagged [attempts] folded: …
   schema <spec> (again)                  another schema class of the same name on the same Chaperones
+  list <strategies>                      the caller creates a list object and keeps it (list number = order of creation)
+  newl <j>                               Chaperone(strategies=<the caller's list j>): a non-empty list is KEPT by the instance
+  lmut <j> remove:<s>|reverse|append:<s>|clear   the caller edits its own list j in place -> the list
   cochap reg:<fn>|set:<fn>|del           register_co_chaperone(S, fn) / co_chaperones[S] = fn / co_chaperones.pop(S) on the
                                          addressed instance, for the CURRENT schema class
   misfold <fn>|-                         assign the public attribute on_misfold (fn: ok rv r0 falsy; - = None)
@@ -718,6 +721,9 @@ class C11(Prop):
         owns = []                # what each instance was told to use, from the protocol lines alone (for the oracle)
         ch = None
         ctor = "selr"
+        caller_lists = []        # the caller's own list objects: (the real list, its letters — the same object that `owns`
+        #                          holds for every instance built from it: Python's own semantics of passing a list)
+        owns_copy = {}           # instance -> the letters it would have if the constructor copied its argument
         co_own = []              # per instance: {schema spec: co-chaperone name}, from the protocol lines alone
         mf_own = []              # per instance: name of the on_misfold callback or None
         hooklog = []             # user callbacks invoked during the current fold
@@ -818,6 +824,45 @@ class C11(Prop):
                     emit(line, "ok")
                 except Exception as e:
                     emit(line, f"raise:{type(e).__name__}")
+            elif t[0] == "list" and len(t) == 2:
+                caller_lists.append((self.strategies_of(t[1]) or [], list(t[1]) if t[1] not in ("none", "-") else []))
+                emit(line, "ok")
+            elif t[0] == "newl" and len(t) == 2:
+                j = int(t[1]) if t[1].isdigit() else -1
+                if not (0 <= j < len(caller_lists)):
+                    emit(line, "no-such-list")
+                    continue
+                try:
+                    real, letters = caller_lists[j]
+                    ch = m.Chaperone(strategies=real, silent=True)
+                    chs.append(ch)
+                    owns.append(letters if letters else list("selr"))     # a non-empty list object is shared, not copied
+                    owns_copy[len(chs) - 1] = list(owns[-1])
+                    ctor = "".join(owns[-1])
+                    emit(line, "ok")
+                except Exception as e:
+                    emit(line, f"raise:{type(e).__name__}")
+            elif t[0] == "lmut" and len(t) == 3:
+                j = int(t[1]) if t[1].isdigit() else -1
+                op, _, arg = t[2].partition(":")
+                if not (0 <= j < len(caller_lists)) or op not in ("reverse", "clear", "append", "remove") or \
+                        (op in ("append", "remove") and arg not in self.strat):
+                    emit(line, "bad-op")
+                    continue
+                real, letters = caller_lists[j]
+                if op == "reverse":
+                    real.reverse()
+                    letters.reverse()
+                elif op == "clear":
+                    real.clear()
+                    letters.clear()
+                elif op == "append":
+                    real.append(self.strat[arg])
+                    letters.append(arg)
+                elif self.strat[arg] in real:
+                    real.remove(self.strat[arg])
+                    letters.remove(arg)
+                emit(line, "[" + ",".join(self.strat_letter.get(x, "?") for x in real) + "]")
             elif t[0] == "newh" and len(t) == 4 and (t[2] == "-" or t[2] in CO_FNS) and (t[3] == "-" or t[3] in MISFOLD_FNS):
                 try:
                     ch = m.Chaperone(strategies=self.strategies_of(t[1]),
@@ -917,8 +962,18 @@ class C11(Prop):
             elif t[0] == "tune" and len(t) == 2:
                 c = current()
                 own = owns[chs.index(c)]
+                cp = owns_copy.get(chs.index(c))
                 op, _, arg = t[1].partition(":")
                 try:
+                    if cp is not None and (op in ("reverse", "clear") or arg in self.strat):
+                        if op == "reverse":
+                            cp.reverse()
+                        elif op == "clear":
+                            cp.clear()
+                        elif op == "append":
+                            cp.append(arg)
+                        elif op == "remove" and arg in cp:
+                            cp.remove(arg)
                     if op == "reverse":
                         c.strategies.reverse()
                         own.reverse()
@@ -944,6 +999,11 @@ class C11(Prop):
                 raw = unhexs(t[1])
                 strat = self.strategies_of(t[2])
                 ch = current()
+                ctor = "".join(owns[chs.index(ch)])
+                # an instance built from a list the caller (or another instance) edited afterwards: whether it sees the edit
+                # is Python's aliasing, not the property's business - the clauses that need the strategy list stand back
+                cp_ = owns_copy.get(chs.index(ch))
+                ambiguous = cp_ is not None and "".join(cp_) != ctor
                 before = self.safe_stats(ch)
                 REC.top = S
                 REC.calls = []
@@ -992,8 +1052,8 @@ class C11(Prop):
                             != before["strategy_success"].get(STRAT_LETTERS[k].lower())]
                 info = {"op": t[0], "raw": raw, "strat": t[2], "ctor": ctor, "S": S, "result": r, "error": err,
                         "inst": chs.index(ch), "epoch": sum(1 for l in out_lines if l.split(" ")[0] in
-                                                            ("tables", "tune", "schema", "newsub", "new", "newh", "cochap", "misfold")),
-                        "used_by_stats": used, "text": text, "hooklog": list(hooklog), "cofn": cofn, "mfn": mfn}
+                                                            ("tables", "tune", "schema", "newsub", "new", "newh", "cochap", "misfold", "list", "newl", "lmut")),
+                        "used_by_stats": used, "text": text, "hooklog": list(hooklog), "cofn": cofn, "mfn": mfn, "ambiguous": ambiguous}
                 if err is not None:
                     emit(line, f"raise:{type(err).__name__} {calls}", info)
                     continue
@@ -1017,6 +1077,7 @@ class C11(Prop):
             elif t[0] == "heal" and len(t) == 4:
                 outs = [unhexs(h) for h in t[3].split(",")]
                 ch = current()
+                ctor = "".join(owns[chs.index(ch)])
                 if co_own[chs.index(ch)].get(spec) is not None or mf_own[chs.index(ch)] is not None:
                     emit(line, "skipped-callbacks")      # the healing loop is modelled over an instance without callbacks
                     continue
@@ -1202,7 +1263,7 @@ class C11(Prop):
                 clean = plain_validate(S, real_json.loads(raw))
             except Exception:
                 clean = None
-            if clean is not None and "s" in eff:
+            if clean is not None and "s" in eff and not (x.get("ambiguous") and x["strat"] in ("none", "-")):
                 if not r.valid:
                     out.append(Violation("clean_json_accepted", "valid (strict is among the strategies)", "invalid", idx))
                 elif eff[:1] == "s":
@@ -1440,6 +1501,7 @@ class C11(Prop):
             # list edited in place
             prev = None
             n_inst = 1
+            n_lists = 0
             crowd = rng.random() < 0.33
             for _ in range(rng.choice([1, 1, 2, 2, 3, 4, 6])):
                 if crowd:
@@ -1458,6 +1520,20 @@ class C11(Prop):
                             n_inst += 1
                         else:
                             lines.append(f"tables {pt} {rt}")
+                    if rng.random() < 0.3:
+                        # the caller's own list objects: handed to one or two constructors, edited in place afterwards
+                        z = rng.random()
+                        if z < 0.4 or n_lists == 0:
+                            lines.append("list " + rng.choice(["-", "s", "r", "er", "le", "selr", "rs", self.rand_strats(rng)]))
+                            n_lists += 1
+                        if n_lists and n_inst < 4 and rng.random() < 0.8:
+                            lines.append(f"newl {rng.randrange(n_lists)}")
+                            n_inst += 1
+                        if n_lists and rng.random() < 0.7:
+                            lines.append(f"lmut {rng.randrange(n_lists)} " + rng.choice(
+                                ["reverse", "clear", "remove:s", "remove:s", "remove:e", "append:s", "append:r", "append:l"]))
+                        if rng.random() < 0.5:
+                            lines.append(f"use {rng.randrange(n_inst)}")
                     if rng.random() < 0.35:
                         lines.append("tune " + rng.choice(["reverse", "clear", "remove:s", "remove:s", "remove:e", "remove:r",
                                                            "append:s", "append:r", "append:l", "remove:l"]))
@@ -1659,7 +1735,19 @@ class C11(Prop):
                      "cochap del", "misfold -", f"foldx {hexs(clean)} none", f"fold {hexs(bad)} none",
                      f"heal 1 1/10 {hexs(clean)}", f"cochap set:{co}", f"fold {hexs(prose3)} s", f"foldx {hexs(prose3)} s", "stats"]
                 hook_cases.append({"lines": L, "note": "callbacks registered on one of several instances, per schema class; unregistered again"})
-        return [{"name": "user callbacks: co-chaperone x on_misfold x strategies; per instance and per schema class", "cases": hook_cases},
+        alias_cases = []
+        clean, prose2 = '{"a": 1, "b": "x"}', 'so {"a": "2"} ok'
+        for first in ["rs", "s", "e", "selr", "-"]:
+            for edit in [["lmut 0 append:s"], ["lmut 0 remove:s"], ["lmut 0 clear"], ["lmut 0 reverse"], ["use 0", "tune remove:s"],
+                         ["use 1", "tune append:l", "tune reverse"], ["lmut 0 clear", "lmut 0 append:r"]]:
+                L = [f"schema {spec}", f"list {first}", "newl 0", "newl 0", "new none", f"list {first}", "newl 1"] + edit
+                for i in (0, 1, 2, 3):
+                    L += [f"use {i}", f"foldx {hexs(clean)} none", f"fold {hexs(clean)} none", f"foldx {hexs(prose2)} -"]
+                L += ["stats", "use 0", "stats"]
+                alias_cases.append({"lines": L, "note": "two Chaperones built from ONE caller list, a third from an equal but distinct list; "
+                                                        "in-place edits through the caller's reference and through instance.strategies"})
+        return [{"name": "the constructor keeps a non-empty caller list: shared list objects x in-place edits", "cases": alias_cases},
+                {"name": "user callbacks: co-chaperone x on_misfold x strategies; per instance and per schema class", "cases": hook_cases},
                 {"name": "FoldedProtein.map: function behaviours x valid/invalid reports", "cases": map_cases},
                 {"name": "re-assigned extraction / repair tables (instance and subclass) x strategies", "cases": table_cases},
                 {"name": "several Chaperone instances, in-place edits of one instance's public strategies list", "cases": crowd_cases},
